@@ -29,6 +29,8 @@ Step(e) ==
     [] e.a = "Read"   -> IF e.layer = "store" THEN ReadStore(e.from, e.lim, e.rev)
                          ELSE ReadSvc(e.from, e.mx, e.lim, e.rev)
     [] e.a = "Sync"   -> Sync(e.mode, e.start, e.end, e.lim)
+    [] e.a = "Head"   -> HeadMsg
+    [] e.a = "Last"   -> LastVis(e.after)
 
 TraceNext == l <= Len(Log) /\ l' = l + 1 /\ Step(Log[l].ev)
 
